@@ -221,6 +221,7 @@ type clusterOpts struct {
 	ElectTick   int
 	KeepWAL     int
 	UseRocksWAL bool
+	WALSegment  int64 // wal.SegmentSizeBytes of the node processes; 0 = production default (64 MiB)
 }
 
 type cluster struct {
@@ -298,7 +299,7 @@ func newCluster(bin string, opts clusterOpts) (*cluster, error) {
 				"raft_group_conf":   map[string]interface{}{"group_id": 1000, "seed_nodes": seeds},
 				"expiration_policy": "wait_compact", "data_version": "value_header_v1",
 			},
-			"replica_id": id, "snap_syncs": syncs, "ctl_port": p.ctl,
+			"replica_id": id, "snap_syncs": syncs, "ctl_port": p.ctl, "wal_segment_bytes": opts.WALSegment,
 		}
 		b, _ := json.MarshalIndent(cf, "", " ")
 		conf := filepath.Join(root, fmt.Sprintf("n%d.json", i))
@@ -384,24 +385,22 @@ func (n *nodeProc) signal(sig syscall.Signal) {
 // kill9 sends SIGKILL and reaps the process.
 func (c *cluster) kill9(i int) {
 	n := c.nodes[i]
-	n.signal(syscall.SIGKILL)
 	n.mu.Lock()
+	n.state = stDown // before the signal: the monitor must not take this for a death of its own
 	ex := n.exited
 	n.mu.Unlock()
+	n.signal(syscall.SIGKILL)
 	if ex != nil {
 		<-ex
 	}
-	n.mu.Lock()
-	n.state = stDown
-	n.mu.Unlock()
 }
 
 func (c *cluster) sigterm(i int) {
 	n := c.nodes[i]
-	n.signal(syscall.SIGTERM)
 	n.mu.Lock()
 	n.state = stTerming
 	n.mu.Unlock()
+	n.signal(syscall.SIGTERM)
 }
 
 // reap waits for a SIGTERMed process to exit; after the limit it is killed (returns false).
@@ -450,6 +449,10 @@ func (c *cluster) destroy() {
 			n.signal(syscall.SIGCONT)
 			c.kill9(i)
 		}
+	}
+	if os.Getenv("C04_KEEP") != "" {
+		fmt.Printf("C04-NOTE kept cluster directory %s\n", c.root)
+		return
 	}
 	os.RemoveAll(c.root)
 }
@@ -518,14 +521,14 @@ func (c *cluster) setStaleRead(i int, allow bool) error {
 func (c *cluster) logStats() map[string]int {
 	out := map[string]int{}
 	pats := map[string]string{
-		"log_snapshot_started":    "start snapshot [applied index",
-		"log_snapshot_installed":  "applying snapshot at index",
-		"log_replay_finished":     "replay finished at index",
-		"log_panic":               "panic:",
-		"log_rocksdb_assertion":   "Assertion",
-		"log_became_leader":       "became leader at term",
-		"log_wal_compacted":       "compacted log at index",
-		"log_restore_from_remote": "restore from remote",
+		"log_snapshot_started":   "start snapshot [applied index",
+		"log_snapshot_installed": "applying snapshot at index",
+		"log_replay_finished":    "replay finished at index",
+		"log_panic":              "panic:",
+		"log_rocksdb_assertion":  "Assertion",
+		"log_became_leader":      "became leader at term",
+		"log_wal_compacted":      "compacted log at index",
+		"log_restore_checkpoint": "begin restore from checkpoint",
 	}
 	for _, n := range c.nodes {
 		b, err := os.ReadFile(n.logPath)
@@ -562,7 +565,7 @@ func (c *cluster) dumpReplica(i int, keys []keySpec) (map[string][]string, error
 	for _, k := range keys {
 		var cmd []string
 		switch k.Type {
-		case ktCnt, ktReg, ktApp:
+		case ktCnt, ktReg, ktSreg, ktApp:
 			cmd = []string{"get", fullKey(k.Name)}
 		case ktHash:
 			cmd = []string{"hgetall", fullKey(k.Name)}
